@@ -9,6 +9,9 @@
 package sim
 
 import (
+	"math/big"
+
+	bls12 "github.com/kilic/bls12-381"
 	"sync/atomic"
 	"bytes"
 	"context"
@@ -52,6 +55,7 @@ type Config struct {
 	ActorAuto bool // the actor behaves honestly by default (votes, collects, proposes); scripted actions are the deviations
 	ByView  []ViewSpec // optional Twins-style scenario: partitions (and leader) chosen by the SENDER's view, messages dropped at send time
 	KauriTree bool // the replicas' configurations carry a Kauri tree (branch factor 2, default positions); only the server's receive path looks at it here
+	RogueVictims []int // bls12 with one actor: the actor REGISTERS the public key x*G1 - sum(keys of these honest replicas) with a junk proof of possession and signs with x (rogue-key attack on aggregate verification)
 }
 
 // ViewSpec is one view of a Twins-style scenario.
@@ -259,9 +263,34 @@ func New(cfg Config) (*Cluster, error) {
 			return nil, err
 		}
 	}
+	var roguePub hotstuff.PublicKey
+	var rogueMeta map[string]string
+	if len(cfg.RogueVictims) > 0 && cfg.Crypto == "bls12" && len(cfg.Actors) > 0 {
+		g1 := bls12.NewG1()
+		x := new(big.Int).SetBytes(cl.keys[hotstuff.ID(cfg.Actors[0])].(*crypto.BLS12PrivateKey).ToBytes())
+		pk := g1.MulScalarBig(&bls12.PointG1{}, &bls12.G1One, x)
+		for _, v := range cfg.RogueVictims {
+			vp, err := g1.FromCompressed(cl.keys[hotstuff.ID(v)].Public().(*crypto.BLS12PublicKey).ToBytes())
+			if err != nil {
+				return nil, err
+			}
+			g1.Sub(pk, pk, vp)
+		}
+		rp := &crypto.BLS12PublicKey{}
+		if err := rp.FromBytes(g1.ToCompressed(pk)); err != nil {
+			return nil, err
+		}
+		roguePub = rp
+		// a well-formed point that is not a proof of possession of the rogue key: the proof of an honest replica
+		rogueMeta = map[string]string{"bls12-pop-bin": cl.ByID[hotstuff.ID(cfg.RogueVictims[0])][0].Cfg.ConnectionMetadata()["bls12-pop-bin"]}
+	}
 	for _, st := range cl.Stacks {
 		for id := 1; id <= cfg.N; id++ {
-			st.Cfg.AddReplica(&hotstuff.ReplicaInfo{ID: hotstuff.ID(id), PubKey: cl.keys[hotstuff.ID(id)].Public(), Metadata: cl.ByID[hotstuff.ID(id)][0].Cfg.ConnectionMetadata()})
+			info := &hotstuff.ReplicaInfo{ID: hotstuff.ID(id), PubKey: cl.keys[hotstuff.ID(id)].Public(), Metadata: cl.ByID[hotstuff.ID(id)][0].Cfg.ConnectionMetadata()}
+			if roguePub != nil && id == cfg.Actors[0] {
+				info.PubKey, info.Metadata = roguePub, rogueMeta
+			}
+			st.Cfg.AddReplica(info)
 		}
 	}
 	if len(cfg.Actors) > 0 {
